@@ -7,19 +7,21 @@
 (*   "double"    F_i = (x_i - r_i)^2                                 root r, singular J    *)
 (*   "exp"       F_i = exp(x_i) - 2 + x_{i+1}/10                      has a root           *)
 (*   "quadm1"    F_i = x_i^2 - 1                                      roots +-1, J singular at 0 *)
+(*   "permuted"  F_1 = x_2^3 + x_2 - 2 + x_1^2/10, F_2 = x_1 - x_2^2   (n = 2) root near (0.954, 0.977); the equations are     *)
+(*               listed in permuted order, so the Jacobian's DIAGONAL is exactly zero at the guess (0, 0)                    *)
 (*   "noroot"    F_i = x_i^2 + 1                                      no root              *)
 (*   "noroot2"   F_1 = SUM x_j^2 + 1, F_i = x_1 - x_i (i > 1)          no root              *)
 (* TLC checks the no-root claims on an integer grid (every component of "noroot" is >= 1,   *)
 (* the first component of "noroot2" is >= 1) and that the lattice reaches every dispatch     *)
 (* path of the front end, and writes the lattice for the actuator.                          *)
 EXTENDS Integers, Sequences, FiniteSets, TLC, Json, IOUtils, SequencesExt
-Kinds == {"cubic", "double", "exp", "quadm1", "noroot", "noroot2"}
-HasRoot(k) == k \in {"cubic", "double", "exp", "quadm1"}
+Kinds == {"cubic", "double", "exp", "quadm1", "permuted", "noroot", "noroot2"}
+HasRoot(k) == k \in {"cubic", "double", "exp", "quadm1", "permuted"}
 Ns == {1, 2, 3, 5, 8, 12}
 Solvers == {"newtontrustregion", "hybrj", "nonlinear_roots"}
 Dtypes == {"float64", "longdouble"}
 Jacs == {"user", "none"}
-Guesses == {"good", "bad", "singular", "nearSingular"}     \* nearSingular: next to a singular Jacobian, the first Newton step cannot lower the residual
+Guesses == {"good", "bad", "singular", "nearSingular", "zeroDiagonal"}     \* nearSingular: next to a singular Jacobian, the first Newton step cannot lower the residual
 ShapeVariants == {"vector", "column", "matrix", "matrixFlatResidual"}      \* last: the unknown is a matrix, the residual is returned flat
 Cell(k, n, s, d, j, g, sh) == [kind |-> k, n |-> n, solver |-> s, dtype |-> d, jac |-> j, guess |-> g, shape |-> sh, hasRoot |-> HasRoot(k)]
 Valid(c) == /\ (c.kind = "noroot2" => c.n >= 2)
@@ -27,6 +29,8 @@ Valid(c) == /\ (c.kind = "noroot2" => c.n >= 2)
             /\ (c.guess = "singular" => c.kind \in {"noroot", "double"})
             /\ (c.guess = "nearSingular" => c.kind \in {"noroot", "noroot2", "quadm1"})
             /\ (c.kind = "quadm1" => c.guess \in {"good", "nearSingular"})
+            /\ (c.kind = "permuted" <=> c.guess = "zeroDiagonal")
+            /\ (c.kind = "permuted" => c.n = 2 /\ c.shape \in {"vector", "column"})
             /\ (c.solver = "hybrj" \/ c.jac = "user" \/ c.n <= 5)          \* finite-difference Jacobians of the large systems only through hybrj
 Lattice == {c \in {Cell(k, n, s, d, j, g, sh) : k \in Kinds, n \in Ns, s \in Solvers, d \in Dtypes, j \in Jacs, g \in Guesses, sh \in ShapeVariants} : Valid(c)}
 (* dispatch path of the front end: double precision goes to MINPACK, extended precision to the built-in dogleg *)
